@@ -224,6 +224,7 @@ pub proof fn lemma_seg_no_dollar(s: Seq<char>)
 //@ rw R4 * ⟦chars.next_if_eq(&'}');⟧ => ⟦chars.next_if_eq_c('}');⟧
 //@ rw R4 * ⟦let var = &chars.take_while_p(|&x| x != '$' && x != '}').collect::<String>();⟧ => ⟦let var = &chars.take_until2('$', '}');⟧
 //@ rw R8 * ⟦str += &std::env::var(var)?;⟧ => ⟦str.append(&env_var_s(var)?);⟧
+//@ rw R8 * ⟦str += &std::env::var(var).unwrap_or_default();⟧ => ⟦str.append(&(match env_var_s(var) { Ok(__v) => __v, Err(_) => Str::new() }));⟧
 //@ rw R1 * ⟦path_buf.push(str);⟧ => ⟦path_buf.push_s(str);⟧
 //@ ins start
     proof {
@@ -271,7 +272,7 @@ pub proof fn lemma_seg_no_dollar(s: Seq<char>)
                                 lemma_first_of(r1, '$', '}');
                             }
 //@ endins
-//@ ins after ⟦str.append(&env_var_s(var)?);⟧
+//@ ins after re⟦str\.append\(&[^;]*env_var_s\(var\)[^;]*;⟧
                             proof {
                                 let v = env(var@)->Some_0;
                                 match expand_seg(chars.rest()) { Some(t) => { assert((acc0 + lit0 + v) + t =~= acc0 + (lit0 + v + t)); }, None => {} }
